@@ -20,13 +20,13 @@ theorem stable_null_zero (env : Env) (fmt : Fmt) (L : Leaves) : ∀ (f : Nat) (t
     | named n =>
       simp only [Stable] at h
       by_cases hl : L.names.contains n = true
-      · simp only [hl, if_true] at h; exact absurd rfl h.2
+      · simp only [hl, if_true] at h; exact absurd rfl h.2.2
       · simp only [hl, if_false] at h
         simp only [zeroVal]
         cases hs : findStruct env.structs n with
         | some s =>
           simp only [hs] at h
-          obtain ⟨vals, hv, _⟩ := h
+          obtain ⟨_, vals, hv, _⟩ := h
           cases hv
         | none =>
           simp only [hs] at h ⊢
@@ -93,17 +93,17 @@ theorem generic_roundtrip_aux (env : Env) (fmt : Fmt) (L : Leaves) (hL : LeafSou
       simp only [Stable] at hs
       by_cases hl : L.names.contains n = true
       · simp only [hl, if_true] at hs
-        exact hL n hl f v hs.1 hs.2
+        exact hL n hl f v hs.1 hs.2.1 hs.2.2
       simp only [hl, if_false] at hs
-      simp only [plainB, hl, Bool.false_eq_true, if_false, Bool.and_eq_true] at hp
-      obtain ⟨hnc, hrest⟩ := hp
-      simp only [noCustom, Bool.and_eq_true, Bool.not_eq_true'] at hnc
-      obtain ⟨⟨⟨hc, hdm⟩, _⟩, _⟩ := hnc
-      have hcn : ∀ v, custom fmt n v = none := fun v => custom_none fmt n v hc
-      have hcd : customDecode n = none := customDecode_none n hc
+      simp only [plainB, hl, Bool.false_eq_true, if_false] at hp
       cases hfs : findStruct env.structs n with
       | none =>
-        simp only [hfs] at hs hrest
+        simp only [hfs, Bool.and_eq_true] at hs hp
+        obtain ⟨hnc, hrest⟩ := hp
+        simp only [noCustom, Bool.and_eq_true, Bool.not_eq_true'] at hnc
+        obtain ⟨⟨⟨hc, hdm⟩, _⟩, _⟩ := hnc
+        have hcn : ∀ v, custom fmt n v = none := fun v => custom_none fmt n v hc
+        have hcd : customDecode n = none := customDecode_none n hc
         cases hfn : findNamed env.named n with
         | none => simp [hfn] at hs
         | some e =>
@@ -111,10 +111,18 @@ theorem generic_roundtrip_aux (env : Env) (fmt : Fmt) (L : Leaves) (hL : LeafSou
           obtain ⟨t, he, hd, hn⟩ := ih e v hrest hs
           exact ⟨t, by simp [encode, hcn, hfs, hfn, he], by simp [decode, hcd, hdm, hfs, hfn, hd], hn⟩
       | some s =>
-        simp only [hfs] at hs hrest
-        simp only [Bool.and_eq_true, List.all_eq_true, Bool.or_eq_true, Bool.not_eq_true'] at hrest
-        obtain ⟨⟨hgn, hkn⟩, hflds⟩ := hrest
-        obtain ⟨vals, hv, hvals⟩ := hs
+        simp only [hfs] at hs hp
+        simp only [Bool.and_eq_true] at hp
+        obtain ⟨⟨⟨hso, hgn⟩, hkn⟩, hflds⟩ := hp
+        have hcd : customDecode n = none ∧ hasMethod env n "DecodeMapstructure" = false := by
+          rcases Bool.or_eq_true_iff.mp hso with h | h
+          · simp only [noCustom, Bool.and_eq_true, Bool.not_eq_true'] at h
+            exact ⟨customDecode_none n h.1.1.1, h.1.1.2⟩
+          · simp only [structOnly, Bool.and_eq_true, Option.isNone_iff_eq_none, Bool.not_eq_true'] at h
+            exact ⟨h.1.2, h.2⟩
+        obtain ⟨hcd, hdm⟩ := hcd
+        simp only [Bool.and_eq_true, List.all_eq_true, Bool.or_eq_true, Bool.not_eq_true'] at hflds
+        obtain ⟨hcust, vals, hv, hvals⟩ := hs
         subst hv
         have hgn' := nodupB_nodup _ hgn
         have hfield : ∀ fd ∈ s.fields, rendered fd = true →
@@ -128,7 +136,9 @@ theorem generic_roundtrip_aux (env : Env) (fmt : Fmt) (L : Leaves) (hL : LeafSou
             fd.yamlSkip = false ∧
             (fd.yamlInline = true → zeroVal env f fd.ty = .null ∧ (fmt = .yaml ∨ skipOf fmt fd = true) ∧
               fd.yamlKey ∉ (s.fields.filter (keyed fmt)).map (keyOf fmt)) ∧
-            (fd.yamlInline = false → skipOf fmt fd = false ∧ keyOf fmt fd = fd.yamlKey ∧ plainB env fmt L.names f fd.ty = true) := by
+            (fd.yamlInline = false →
+              (skipOf fmt fd = true → fd.yamlKey ∉ (s.fields.filter (keyed fmt)).map (keyOf fmt)) ∧
+              (skipOf fmt fd = false → keyOf fmt fd = fd.yamlKey ∧ plainB env fmt L.names f fd.ty = true)) := by
           intro fd hm hr
           rcases hflds fd hm with h | h
           · rw [hr] at h; cases h
@@ -140,8 +150,12 @@ theorem generic_roundtrip_aux (env : Env) (fmt : Fmt) (L : Leaves) (hL : LeafSou
               exact ⟨isNull_eq this.1.1, this.1.2, this.2⟩
             · intro hi
               have := h.2
-              simp only [hi, Bool.false_eq_true, if_false, Bool.and_eq_true, Bool.not_eq_true', beq_iff_eq] at this
-              exact ⟨this.1.1, this.1.2, this.2⟩
+              simp only [hi, Bool.false_eq_true, if_false] at this
+              constructor
+              · intro hsk
+                simpa [hsk] using this
+              · intro hsk
+                simpa [hsk] using this
         have hkeyed_facts : ∀ fd ∈ s.fields, keyed fmt fd = true → rendered fd = true ∧ fd.yamlInline = false := by
           intro fd hm hk
           have hr : rendered fd = true := keyed_rendered fmt fd hk
@@ -159,16 +173,21 @@ theorem generic_roundtrip_aux (env : Env) (fmt : Fmt) (L : Leaves) (hL : LeafSou
           have hr : rendered fd = true := notskip_rendered fmt fd hsk
           rw [hfield fd hm hr]
           exact (hvals fd hm hr).1 hi
-        have homit : ∀ fd ∈ s.fields, rendered fd = true →
+        have homit : ∀ fd ∈ s.fields, rendered fd = true → skipOf fmt fd = false →
             omitted fmt (zeroOf env fmt) fs fd = omittedF env fmt fd (vals fd) := by
-          intro fd hm hr
-          simp only [omitted, omittedF, hfield fd hm hr]
+          intro fd hm hr hsk
+          simp only [omitted, omittedF, hfield fd hm hr, hsk, Bool.false_or]
+        have hkeyed_noskip : ∀ fd, keyed fmt fd = true → skipOf fmt fd = false := by
+          intro fd hk
+          simp only [keyed, Bool.and_eq_true, Bool.not_eq_true'] at hk
+          exact hk.1
         have hencok : ∃ out, encodeFieldsWith fmt (encode env fmt f) (zeroOf env fmt) s.fields fs = .ok (.map out) := by
           apply encodeFields_ok fmt _ _ s.fields fs hni
           intro fd hm hk hom
           obtain ⟨hr, hi⟩ := hkeyed_facts fd hm hk
-          rw [homit fd hm hr] at hom
-          obtain ⟨t, he, _, _⟩ := ih fd.ty (vals fd) ((hfd fd hm hr).2.2 hi).2.2 ((hvals fd hm hr).2.2 hi hom)
+          have hsk := hkeyed_noskip fd hk
+          rw [homit fd hm hr hsk] at hom
+          obtain ⟨t, he, _, _⟩ := ih fd.ty (vals fd) (((hfd fd hm hr).2.2 hi).2 hsk).2 ((hvals fd hm hr).2.2 hi hom)
           rw [hfield fd hm hr]
           exact ⟨t, he⟩
         obtain ⟨out, hout⟩ := hencok
@@ -184,16 +203,23 @@ theorem generic_roundtrip_aux (env : Env) (fmt : Fmt) (L : Leaves) (hL : LeafSou
               lookup_none_of_not_mem (fun hmem => (hinl hi).2.2 (encodeFields_keys fmt _ _ s.fields fs out hni hout _ hmem))
             simp only [hsk, Bool.false_eq_true, if_false, hnk, (hinl hi).1, (hvals fd hm hr).1 hi]
           · have hi' : fd.yamlInline = false := by simpa using hi
-            obtain ⟨hnsk, hkey, hplain⟩ := hpl hi'
+            by_cases hskip : skipOf fmt fd = true
+            · -- left out by this format: the key is not in the rendering, the value is the zero value
+              have hnk : Val.lookup fd.yamlKey out = none :=
+                lookup_none_of_not_mem (fun hmem => ((hpl hi').1 hskip) (encodeFields_keys fmt _ _ s.fields fs out hni hout _ hmem))
+              have hz := (hvals fd hm hr).2.1 hi' (by simp [omittedF, hskip])
+              simp only [hsk, Bool.false_eq_true, if_false, hnk, hz]
+            have hnsk : skipOf fmt fd = false := by simpa using hskip
+            obtain ⟨hkey, hplain⟩ := (hpl hi').2 hnsk
             simp only [hsk, Bool.false_eq_true, if_false]
             have hk : keyed fmt fd = true := by
               simp [keyed, hnsk, hi']
             rcases hrend fd hm hk with ⟨hom, hl⟩ | ⟨hom, t, he, hl⟩
             · rw [hkey] at hl
-              rw [homit fd hm hr] at hom
+              rw [homit fd hm hr hnsk] at hom
               simp only [hl, (hvals fd hm hr).2.1 hi' hom]
             · rw [hkey] at hl
-              rw [homit fd hm hr] at hom
+              rw [homit fd hm hr hnsk] at hom
               rw [hfield fd hm hr] at he
               have hst := (hvals fd hm hr).2.2 hi' hom
               obtain ⟨t', he', hd', hn'⟩ := ih fd.ty (vals fd) hplain hst
@@ -211,8 +237,12 @@ theorem generic_roundtrip_aux (env : Env) (fmt : Fmt) (L : Leaves) (hL : LeafSou
         have hdecall := decodeFields_all_ok (decode env f) (zeroVal env f) vals out s.fields hdec
         refine ⟨.map out, ?_, ?_, fun _ => by simp⟩
         · rw [← hfsd]
-          simp only [encode, hcn, hfs]
-          exact hout
+          rw [← hfsd] at hcust
+          rcases hcust with hcn | hcn
+          · simp only [encode, hcn, hfs]
+            exact hout
+          · simp only [encode, hcn, hfs]
+            exact hout
         · rw [← hfsd]
           simp only [decode, hcd, hdm, Bool.false_eq_true, if_false, hfs, hdecall, hfsd]
 
